@@ -69,3 +69,25 @@ PROPS['C18'] = dict(
                 split={'orb0': [1, 2, 3], 'spn0': [1, 2, 3], 'orb1': [1, 2, 3], 'spn1': [1, 2, 3]}, tiers=[T],
                 witnesses=['prepared', 'done', 'heterogeneous_sites']) for o in (0, 1)],
 )
+
+PROPS['C04'] = dict(
+    claim='The real chain Lattice/LatticePresets -> IndexClassification -> IndexHamiltonian::prepare -> Operator::actRight is '
+          'executed symbolically with ALL amplitudes symbolic; every matrix element of the resulting Hamiltonian is compared '
+          'with the operator written in the documentation of each preset (independent Jordan-Wigner reference), plus '
+          'Hermiticity and [H,S+]=0 for the rotationally invariant forms.',
+    bounds={Q: '1-2 sites, up to 4 modes; presets CoulombS/CoulombP(4,5 args)/Level/Magnetization/Hopping(4,7,8 args)/SzSz/SS '
+               '(same-site and two-site); user terms with 2 and 4 operators, all 2^N creation/annihilation patterns, 16 mode assignments',
+            T: 'additionally user terms with 6 operators'},
+    assumptions=['every amplitude is exactly 0 or 1e-3 <= |a| <= 1e3', 'double read as exact real',
+                 'index order taken from the real IndexClassification (C18)'],
+    outside=['more than 4 modes (t2g site, heterogeneous s+p lattices)', 'complex amplitudes (complex build)'],
+    units=[dict(name='presets_case%d' % c, harness='h_presets', defs=['CASE=%d' % c], max_loop=50000,
+                witnesses=['prepared', 'done'] + (['commutator_checked'] if c in (3, 5) else []),
+                validate=[{}]) for c in (1, 2, 3, 4, 5, 6)] +
+          [dict(name='presets_case%d_spinmajor' % c, harness='h_presets', defs=['CASE=%d' % c, 'ORDER_SPINS=true'], max_loop=50000,
+                witnesses=['prepared', 'done']) for c in (2, 4)] +
+          [dict(name='userterm_n%d' % n, harness='h_presets', defs=['CASE=7', 'NOPS=%d' % n], split={'sel': R(16)},
+                witnesses=['prepared', 'done'], validate=[{'sel': 2, 'pat': 1}, {'sel': 7, 'pat': 2}]) for n in (2, 4)] +
+          [dict(name='userterm_n6', harness='h_presets', defs=['CASE=7', 'NOPS=6'], split={'sel': R(16)}, tiers=[T],
+                witnesses=['prepared', 'done'])],
+)
